@@ -156,6 +156,17 @@ def c17_4(c: Ctx) -> None:
         c.ok(f'{ci.module}:{cfgs[0].lineno} BaseEvent', "model_config extra='allow' (payload fields survive a round trip through the base class)")
     else:
         c.fail('bubus/models.py BaseEvent', f'model_config extra={U(extra) if extra is not None else "default"}', 'payload fields are dropped/rejected when a WAL line is validated back')
+    if cfgs:
+        kws = {k.arg: k.value for k in cfgs[0].value.keywords if k.arg}
+        for k, v in kws.items():
+            if k.startswith('ser_json_'):
+                twin = 'val_json_' + k[len('ser_json_'):]
+                if twin not in kws or U(kws[twin]) != U(v):
+                    c.fail('bubus/models.py BaseEvent', f'model_config {k}={U(v)} without {twin}={U(v)}', f'the JSON written to the WAL encodes some payload values ({k}) in a form that validation does not decode back: a line validates into a different payload')
+            elif k in ('json_encoders', 'use_enum_values', 'ser_json_inf_nan', 'populate_by_name', 'alias_generator', 'coerce_numbers_to_str', 'str_strip_whitespace', 'str_to_lower', 'str_to_upper', 'hide_input_in_errors'):
+                if k in ('json_encoders', 'alias_generator', 'coerce_numbers_to_str', 'str_strip_whitespace', 'str_to_lower', 'str_to_upper'):
+                    c.fail('bubus/models.py BaseEvent', f'model_config {k}={U(v)[:40]}', f'{k} changes how payload values are written / read back: WAL lines no longer round-trip to the same payload')
+        c.ok(f'{ci.module}:{cfgs[0].lineno} BaseEvent', f'model_config keys {sorted(kws)}: no one-sided serialisation option')
     sers = [m for m in ci.methods.values() if any('field_serializer' in U(d) for d in m.node.decorator_list)]
     ser_fields = sorted({a.value for m in sers for d in m.node.decorator_list if isinstance(d, ast.Call) for a in d.args if isinstance(a, ast.Constant)})
     if set(ser_fields) <= {'event_result_type'}:
